@@ -130,8 +130,18 @@ def run(fn, stdin: str = '', fs=None, timeout: float = 5.0, reset_registry: bool
     except CaseTimeout:
         res = {'kind': 'timeout'}
     except AS.UnsuspectedHangeulError as e:
+        # observe stdout / unread stdin *before* the harness formats the exception value: formatting is the harness's
+        # doing (main() only raises), and it executes any I/O action the exception's contents hold
+        sys.stdout.flush()
+        pre = {'out': writer.getvalue().decode('utf-8', 'replace')}
+        pos = reader.tell() if hasattr(reader, 'tell') else None
+        try:
+            pre['rest'] = sys.stdin.read()
+            sys.stdin = io.TextIOWrapper(_KeepOpen(pre['rest'].encode('utf-8')), encoding='utf-8', newline='\n')
+        except Exception:
+            pre['rest'] = ''
         res = {'kind': 'err', 'err': format_err(e.err),
-               'spans': [(m.line_no, m.start_col, m.end_col) for m in e.err.metadatas]}
+               'spans': [(m.line_no, m.start_col, m.end_col) for m in e.err.metadatas], '_pre': pre}
     except RuntimeError as e:
         if str(e) == "Maximum Stack Size Exceeded.":
             res = {'kind': 'limit'}
@@ -151,6 +161,8 @@ def run(fn, stdin: str = '', fs=None, timeout: float = 5.0, reset_registry: bool
         except Exception:
             res.setdefault('out', '')
             res.setdefault('rest', '')
+        if '_pre' in res:
+            res.update(res.pop('_pre'))
         sys.stdin, sys.stdout = old[0], old[1]
         os.chdir(old[2])
         gc.collect()           # unreferenced file objects flush their buffers when collected
